@@ -89,3 +89,41 @@ Print Assumptions refiner_arithmetic_is_what_the_source_says.
 Print Assumptions apply_op_uses_the_generated_arithmetic.
 Print Assumptions decide_is_the_generated_tree.
 Print Assumptions split_tri_is_what_the_source_creates.
+
+(* ------------------------------------------------------------------ what the regenerated expressions do, over R
+   (direct statements about the code as translated, not through the hand model) *)
+From Coq Require Import Reals Lra.
+From SC Require Import VecR.
+Local Open Scope R_scope.
+
+(* an edge split hands the momentum of a and b on unchanged in total: 2/3 + 2/3 + (1 + 1)/3 *)
+Theorem generated_split_conserves_momentum : forall ma mb : vR,
+  split_mom_a_gen NumR ma mb +v split_mom_b_gen NumR ma mb +v split_mom_e_gen NumR ma mb = ma +v mb.
+Proof.
+  intros [a1 a2 a3] [b1 b2 b3]. unfold split_mom_a_gen, split_mom_b_gen, split_mom_e_gen, vadd, vscale, vdivs.
+  cbn [vx vy vz nadd nmul ndiv nofZ none_ NumR]. apply vec3_eq; cbn [vx vy vz]; simpl; field.
+Qed.
+
+(* an edge collapse gives the new node the sum of the two momenta and puts it at the midpoint *)
+Theorem generated_merge_conserves_momentum : forall ma mb : vR, merge_mom_gen NumR ma mb = ma +v mb.
+Proof. reflexivity. Qed.
+
+Theorem generated_new_node_is_the_midpoint : forall pa pb : vR,
+  split_pos_gen NumR pa pb = merge_pos_gen NumR pa pb /\
+  (split_pos_gen NumR pa pb -v pa) = (pb -v split_pos_gen NumR pa pb).
+Proof.
+  intros [a1 a2 a3] [b1 b2 b3]. split; [reflexivity|].
+  unfold split_pos_gen, vadd, vsub, vscale. cbn [vx vy vz nadd nsub nmul ndiv nofZ none_ NumR].
+  apply vec3_eq; cbn [vx vy vz]; simpl; field.
+Qed.
+
+(* the decision tree never splits an edge that is not longer than l_max and never merges one that is not shorter than l_min *)
+Theorem generated_decision_is_selective : forall (lmin2 lmax2 l : R) (cm : bool),
+  (decision_gen NumR lmin2 lmax2 l cm = DSplit -> lmax2 < l) /\
+  (decision_gen NumR lmin2 lmax2 l cm = DMerge -> l < lmin2 /\ cm = true /\ ~ lmax2 < l).
+Proof.
+  intros lmin2 lmax2 l cm. unfold decision_gen. cbn [nltb NumR]. unfold Rltb.
+  destruct (Rlt_dec lmax2 l) as [H1|H1]; destruct (Rlt_dec l lmin2) as [H2|H2]; destruct cm; split; intro H; try discriminate H; auto.
+Qed.
+Print Assumptions generated_split_conserves_momentum.
+Print Assumptions generated_decision_is_selective.
